@@ -278,3 +278,24 @@ def drop_parser_loggers() -> int:
     for k in names:
         d.pop(k, None)
     return len(names)
+
+
+# ---- data_logger: flags without a public setter -------------------------------------------------------------------------
+
+def flag_read_by(obj, method: str, default: Optional[str] = None) -> Optional[str]:
+    """name of the one Boolean instance attribute that `method` of obj's class reads (the writer loop's stop flag is the
+    Boolean `DataCollection.write` looks at, the closed marker the one `__del__` looks at), `default` if it is among them"""
+    have = vars(obj)
+    code = getattr(getattr(type(obj), method, None), "__code__", None)
+    cands = [n for n in code.co_names if isinstance(have.get(n), bool)] if code is not None else []
+    if default in cands or (not cands and default in have):
+        return default
+    return cands[0] if len(cands) == 1 else None
+
+
+def set_flag_read_by(obj, method: str, value: bool, default: Optional[str] = None) -> bool:
+    n = flag_read_by(obj, method, default)
+    if n is None:
+        return False
+    setattr(obj, n, value)
+    return True
